@@ -300,6 +300,52 @@ func (w *world) tamper(op WOp) {
 		}
 	case "block":
 		st.asked = 1 + uint64(((op.B%int(st.total))+int(st.total))%int(st.total))
+	case "leafas":
+		// the other direction of the missing domain separation: a LEAF presented as an inner node. A key
+		// owner can store a value whose bytes end with the hash of a value node of their choosing (or consist
+		// of sixteen hash slots); the leaf's hashed bytes weight||value then read as a short node key||childHash
+		// (or as a branch), and the proof continues below the end of the key path into the chosen node.
+		fake := op.V
+		fe := refwmpt.Entry{Value: fake, Weight: weightOf(fake)}
+		fh := refwmpt.ValueHash(fe)
+		var cum uint64
+		for _, e := range st.sorted {
+			v := e.Value
+			short := len(v) > 32 && len(v) != 512 && bytes.Equal(v[len(v)-32:], fh)
+			branch := len(v) == 512 && bytes.Equal(v[:32], fh)
+			if !short && !branch {
+				cum += e.Weight
+				continue
+			}
+			b := cum + 1 + uint64(op.A)%e.Weight
+			_, proof, err := w.t.GetBlockProof(b)
+			if err != nil {
+				return
+			}
+			nodes, err := decodeProof(proof)
+			if err != nil || len(nodes) == 0 {
+				return
+			}
+			last := decodeNode(nodes[len(nodes)-1])
+			if last == nil || last.Value == nil {
+				return
+			}
+			body := append(be8(last.Value.Weight), last.Value.Value...)
+			var re *wmpt.PersistNodeBase
+			if short {
+				re = &wmpt.PersistNodeBase{Short: &wmpt.PersistNodeShort{Key: body[:len(body)-32], Hash: last.Value.Hash, Value: append(append([]byte{}, fh...), be8(last.Value.Weight)...)}}
+			} else {
+				ch := make([][]byte, 16)
+				ch[0] = append(append([]byte{}, fh...), be8(last.Value.Weight)...)
+				re = &wmpt.PersistNodeBase{Branch: &wmpt.PersistNodeBranch{Hash: last.Value.Hash, Children: ch}}
+			}
+			inner := &wmpt.PersistNodeBase{Value: &wmpt.PersistNodeValue{Value: fake, Hash: fh, Weight: fe.Weight}}
+			st.block, st.asked = b, b
+			st.honest = nodes
+			st.nodes = append(append([][]byte{}, nodes[:len(nodes)-1]...), encodeNode(re), encodeNode(inner))
+			w.stats.Inc("probe.leaf-presented-as-inner-node")
+			break
+		}
 	case "retype":
 		// present a branch (or short) node as a VALUE node whose weight||value bytes are exactly the
 		// bytes the original node hashes: there is no domain separation between node kinds
